@@ -390,6 +390,109 @@ def missing_key(ctx, facts, unit, mf, cfg):
         ctx.ok("K3.missing-key-site", "the key-wise comparison handles a missing key explicitly (%s)" % cfg)
 
 
+def container_walk(facts, b, mf, known=None):
+    """K3.elementwise on a body that walks the members in *loops* (path summaries): what the property needs is stated
+    on the events of every path, not on the spelling of the walk —
+      * a key of one object looked up in the other (`Map::get(Y, key of X)`) and a pair of members handed to the
+        membership equality (`same(next of X, next of Y)`) happen only on paths on which `len(X) == len(Y)` holds for
+        those very X and Y (a walk over one side alone, or a pairwise walk that stops at the shorter side, decides a
+        sub-collection / prefix to be the same element);
+      * a pair that is not the same ends the walk with false; a pair that is the same lets the walk go on (it does
+        not decide the answer).
+    → {"Object": (bad, good, unread), "Array": (bad, good, unread)}, or None when the body is not summarised."""
+    from . import pathsum
+    w = pathsum.summarize(b, known=known, max_paths=3000)
+    if w.overflow or not w.paths:
+        return None
+
+    def measured(txt):
+        """What a `len(..)` rendering measures, reference plumbing peeled."""
+        if "::len(" not in txt:
+            return None
+        x = txt.split("::len(", 1)[1]
+        x = x[:-1] if x.endswith(")") else x
+        while True:
+            m = re.match(r"^\((?:ref|deref) (.*)\)$", x)
+            if not m:
+                return x
+            x = m.group(1)
+
+    def lens_equal(p, c1, c2):
+        """True / False / None: the path knows len(X) == len(Y) for X inside c1 and Y inside c2 (or the other way round)."""
+        seen = None
+        for k, val in p.atoms.items():
+            if k[0] == "cmp" and isinstance(val, bool):
+                la, lb = measured(str(k[2])), measured(str(k[3]))
+                if la is None or lb is None or la == lb:
+                    continue
+                if (la in c1 and lb in c2) or (la in c2 and lb in c1):
+                    if k[1] != "Eq":
+                        return "cmp:" + k[1]
+                    seen = val if seen is None else (seen and val)
+        return seen
+
+    out = {"Object": ([], 0, []), "Array": ([], 0, [])}
+
+    def note(kind, what, msg=None):
+        bad, good, unread = out[kind]
+        if what == "bad":
+            bad.append(msg)
+        elif what == "unread":
+            unread.append(msg)
+        else:
+            out[kind] = (bad, good + 1, unread)
+
+    for p in w.paths:
+        gets = [ev for ev in p.events if ev[1] and ev[1]["path"].startswith("serde_json::Map::<") and ev[1]["path"].endswith("::get") and len(ev[2]) == 2]
+        recs = [ev for ev in p.events if ev[1] and ev[1].get("key") == mf.key and len(ev[2]) == 2]
+        for ev in gets:
+            cy, ck = pathsum.canon(strip_refs(ev[2][0])), pathsum.canon(strip_refs(ev[2][1]))
+            if "::next(" not in ck:
+                continue            # not a key handed out by a walk
+            le = lens_equal(p, ck, cy)
+            if le is True:
+                note("Object", "good")
+            elif isinstance(le, str):
+                note("Object", "bad", "the two numbers of entries are compared with %s (only equality decides)" % le.split(":")[1])
+            else:
+                note("Object", "bad", "the entries of one object are walked and the numbers of entries of these two objects are not known to be equal on this path: an object would be the same element as any object that has its keys among others")
+        for ev in recs:
+            c1, c2 = pathsum.canon(strip_refs(ev[2][0])), pathsum.canon(strip_refs(ev[2][1]))
+            if "::next(" not in c1 and "::next(" not in c2:
+                continue            # not a pair handed out by a walk (a re-dispatch)
+            kind = "Object" if ("::get(" in c1 or "::get(" in c2) else "Array"
+            if kind == "Array":
+                le = lens_equal(p, c1, c2)
+                if isinstance(le, str):
+                    note(kind, "bad", "the two lengths are compared with %s (only equality decides: a shorter array is not the same element as a longer one that starts with it)" % le.split(":")[1])
+                    continue
+                if le is not True:
+                    note(kind, "bad", "the members are walked pairwise and the lengths of these two arrays are not known to be equal on this path: the walk stops at the shorter side, so a prefix is the same element as the whole")
+                    continue
+            verdict = p.atoms.get(("site", ev[3]))
+            res = strip_refs(p.result) if (p.result is not None and not p.truncated) else None
+            const = const_value(res[1]) if (res is not None and res[0] == "const") else None
+            if verdict is False:
+                if p.truncated:
+                    note(kind, "bad", "the walk goes on after a pair of members that is not the same: two %ss are the same element only if *every* pair of members is" % kind.lower())
+                elif const is False:
+                    note(kind, "good")
+                elif const is True:
+                    note(kind, "bad", "a pair of members that is not the same makes the %ss the same element" % kind.lower())
+                else:
+                    note(kind, "unread", "after a pair that is not the same the result is %s" % (show_expr(res)[:50] if res is not None else "?"))
+            elif verdict is True:
+                if p.truncated:
+                    note(kind, "good")
+                elif isinstance(const, bool):
+                    note(kind, "bad", "one pair of members that is the same decides the answer (%s): two %ss are the same element only if *every* pair of members is" % (str(const).lower(), kind.lower()))
+                else:
+                    note(kind, "unread", "after a pair that is the same the result is %s" % (show_expr(res)[:50] if res is not None else "?"))
+            else:
+                note(kind, "unread", "what the walk does with the answer for a pair of members is not read")
+    return out
+
+
 def container_cases(ctx, facts, mf, cfg):
     """K3.elementwise — the container cases of the membership equality, read on its decision cases with both kinds fixed:
     two arrays (two objects) are the same element iff they have the *same number* of members and *every* pair of
@@ -406,8 +509,20 @@ def container_cases(ctx, facts, mf, cfg):
     for kind in ("Array", "Object"):
         key0 = "membership equality %s,%s (%s)" % (kind, kind, cfg)
         cases = optnorm.decision_cases(facts, mf, known=lambda e, adt, _k=kind: _k if (adt == VALUE_ and strip_refs(e) in (("arg", 1), ("arg", 2))) else None)
+        kn = lambda e, adt, _k=kind: _k if (adt == VALUE_ and strip_refs(e) in (("arg", 1), ("arg", 2))) else None
         if cases is None:
-            ctx.unread("K3.elementwise", key0, "the membership equality has loops or too many paths to summarise", where=mf.where(), fn=mf.key)
+            # the walk is spelled with loops in the membership equality itself
+            wk = container_walk(facts, mf, mf, known=kn)
+            if wk is None or not (wk[kind][0] or wk[kind][1] or wk[kind][2]):
+                ctx.unread("K3.elementwise", key0, "the membership equality has loops or too many paths to summarise, and no walk over the members of two %ss is read" % kind.lower(), where=mf.where(), fn=mf.key)
+                continue
+            bad, good, unread = wk[kind]
+            for b_ in sorted(set(bad)):
+                ctx.fail("K3.elementwise", key0 + "|" + b_[:40], b_, where=mf.where(), fn=mf.key)
+            if not bad and unread:
+                ctx.unread("K3.elementwise", key0, "the %s walk is not read: %s" % (kind, unread[:2]), where=mf.where(), fn=mf.key)
+            elif not bad:
+                ctx.ok("K3.elementwise", key0, nontrivial=True, sample={"kind": kind, "walks": good})
             continue
         bad, good, unread = [], 0, []
         for conds, v, p in cases:
@@ -434,6 +549,16 @@ def container_cases(ctx, facts, mf, cfg):
                 ca, cb = pathsum.canon(strip_refs(vv[2])), pathsum.canon(strip_refs(vv[3]))
                 if (is_len_of(ca, 1) and is_len_of(cb, 2)) or (is_len_of(ca, 2) and is_len_of(cb, 1)):
                     continue          # the length comparison itself returned as the result (empty walk): nothing to read
+            if vv[0] == "call" and vv[1] and vv[1].get("local") and vv[1].get("key") != mf.key and not neg and facts.body(vv[1]["key"]) is not None and len_state is None:
+                # the case is handed to a private helper (`arrays_eq(xs, ys)`): the helper's walk is the case's walk
+                hb = facts.body(vv[1]["key"])
+                wk = container_walk(facts, hb, mf)
+                if wk is not None and any(wk[k_][0] or wk[k_][1] or wk[k_][2] for k_ in wk):
+                    for k_ in wk:
+                        bad.extend(wk[k_][0])
+                        good += wk[k_][1]
+                        unread.extend(wk[k_][2])
+                    continue
             m_ = re.search(r"(Iterator::|Iterator>::)(all|any)$", vv[1]["path"]) if (vv[0] == "call" and vv[1]) else None
             if not m_ or len(vv[2]) != 2:
                 unread.append(show_expr(strip_refs(v))[:70])
@@ -652,7 +777,7 @@ def run(ctx):
                 ctx.check(good, "K3.pair", "membership equality %s,%s: %s (%s)" % (a, b, want, cfg), "%s vs %s is compared by %s; expected %s" % (a, b, o.kind, want), where=mf.where(), fn=mf.key, nontrivial=True,
                           sample={"pair": "%s,%s" % (a, b), "outcome": o.kind} if a == b else None)
             # Object×Object is key-wise (Map::get), Array×Array element-wise with equal lengths
-            mu2 = Unit(roles, mf.key)
+            mu2 = Unit(roles, mf.key, extended=True)       # the membership equality with the private helpers it reaches
             container_cases(ctx, facts, mf, cfg)
             missing_key(ctx, facts, mu2, mf, cfg)
             paths = [callee_path(s.term) for s in mu2.calls()]
